@@ -210,15 +210,26 @@ def one_call(d, cfg, names, cur, inp, problems, tag, ref=None, before=None):
 _ref_cache = {}
 
 
-def reference(d, inp_seq):
+def load_db(d, how):
+    """how: ok = phreeqc.dat; none = no LoadDatabase call at all; missing = a LoadDatabase that fails (file does not exist),
+    which leaves the instance without a database - every Run* then stops with 'No database is loaded'."""
+    if how == "ok":
+        d.call("s0", "c", "LoadDatabase", DB)
+    elif how == "missing":
+        d.call("s0", "c", "LoadDatabase", "no_such_database.dat")
+
+
+def reference(d, inp_seq, dbs=("ok", None)):
     """Selected-output tables of the same call sequence with every sink off (fresh instance)."""
-    key = tuple(inp_seq)
+    key = (tuple(inp_seq), tuple(dbs))
     if key not in _ref_cache:
         d.reset()
         d.new("c")
-        d.call("s0", "c", "LoadDatabase", DB)
+        load_db(d, dbs[0])
         tabs = None
-        for inp in inp_seq:
+        for k, inp in enumerate(inp_seq):
+            if k == 1 and dbs[1]:
+                load_db(d, dbs[1])
             apply_cfg(d, [0] * NSW, 1)
             d.call("s0", "c", "RunString", INPUTS[inp])
             tabs = d.obs("s0", "c", "t")["sel"]
@@ -230,11 +241,12 @@ def run_case(case):
     d = core.get_drv("rel")
     cfg, names, cur, inp = case["cfg"], case["names"], case["cur"], case["input"]
     seq = [inp] + ([case["input2"]] if case.get("flip") is not None else [])
-    ref1 = reference(d, seq[:1])
-    ref2 = reference(d, seq) if len(seq) > 1 else None
+    dbs = (case.get("db", "ok"), case.get("db2"))
+    ref1 = reference(d, seq[:1], dbs)
+    ref2 = reference(d, seq, dbs) if len(seq) > 1 else None
     d.reset()
     d.new("c")
-    d.call("s0", "c", "LoadDatabase", DB)
+    load_db(d, dbs[0])
     if names:
         for ch, fn in CUSTOM.items():
             d.call("s0", "c", "Set%sFileName" % ch, fn)
@@ -250,6 +262,9 @@ def run_case(case):
         cfg2 = list(cfg)
         cfg2[case["flip"]] = 0 if cfg2[case["flip"]] else 1
         before = {"files": files, "dump": o["GetDumpString"] if cfg[GLOBAL.index("DumpString")] else ""}
+        if dbs[1]:
+            load_db(d, dbs[1])
+            before["files"] = d.files()
         rc2, o2, tables2, files2 = one_call(d, cfg2, names, cur, case["input2"], problems, "call 2 after flipping %s" % (GLOBAL + ["%s%d" % p for p in PERUSER])[case["flip"]], ref2, before)
         outcome += [rc2, mask(files2)]
         ops += 1
@@ -259,7 +274,7 @@ def run_case(case):
         if p[0] not in seen:
             seen.add(p[0])
             uniq.append(p)
-    return {"case": case, "problems": uniq, "ops": ops, "states": [core.sha(repr((case["cfg"], case.get("flip"))))],
+    return {"case": case, "problems": uniq, "ops": ops, "states": [core.sha(repr((case["cfg"], case.get("flip"), case.get("db"), case.get("db2"))))],
             "outcome": core.sha(repr(outcome)), "script": d.script(),
             "sample": {"case": case, "rc": rc, "files": sorted(files)}}
 
@@ -286,7 +301,21 @@ def cases(tier):
             for f in range(NSW):
                 for i1, i2 in (("warn", "two"), ("dump", "dump"), ("carry", "carry")):
                     out.append({"input": i1, "cfg": [corner] * NSW, "names": 0, "cur": 1, "flip": f, "input2": i2})
+        # runs on an instance that holds no database (never loaded / last load failed): every global configuration, and
+        # after a successful first call with every sink on
+        for db in ("none", "missing"):
+            for g in range(2 ** len(GLOBAL)):
+                out.append({"input": "warn", "cfg": bits(g, len(GLOBAL)) + [1, 1, 1, 1], "names": g & 1, "cur": 1, "db": db})
+        for corner in (0, 1):
+            for f in range(NSW):
+                out.append({"input": "log", "cfg": [corner] * NSW, "names": f & 1, "cur": 1, "flip": f, "input2": "warn", "db2": "missing"})
     else:
+        for db in ("none", "missing"):
+            for g in range(2 ** NSW):
+                out.append({"input": ("warn", "dump", "log")[g % 3], "cfg": bits(g, NSW), "names": (g >> 3) & 1, "cur": 1 + ((g >> 5) & 1), "db": db})
+        for g in range(2 ** NSW):
+            f = g % NSW
+            out.append({"input": "log", "cfg": bits(g, NSW), "names": (g >> 3) & 1, "cur": 1, "flip": f, "input2": "warn", "db2": "missing"})
         for inp in INPUTS:
             for g in range(2 ** NSW):
                 out.append({"input": inp, "cfg": bits(g, NSW), "names": (g >> 3) & 1, "cur": 1 + ((g >> 5) & 1)})
@@ -315,7 +344,7 @@ def run(tier):
     if done1:
         done2 = core.explore_cases(two, run_case, ev, findings, pool, chunksize=8, deadline=dl)
     ev.bound("two-call histories with one switch flip: %d" % len(two), done2, cases=len(two))
-    ev.extra["alphabet"] = {"switches": GLOBAL + ["%s(user %d)" % p for p in PERUSER], "inputs": sorted(INPUTS), "file_names": ["default", "custom"], "current_user_number_at_run": [1, 2]}
+    ev.extra["alphabet"] = {"switches": GLOBAL + ["%s(user %d)" % p for p in PERUSER], "inputs": sorted(INPUTS), "file_names": ["default", "custom"], "database_at_run": ["loaded", "never loaded", "last LoadDatabase failed"], "current_user_number_at_run": [1, 2]}
     pool.close()
     return core.finish(ev, findings)
 
